@@ -127,11 +127,15 @@ def children(t):
 
 
 def nops(t):
+    if t[0] == "m":
+        return 1
     return (0 if t[0] in ("r", "c") else 1) + sum(nops(c) for c in children(t))
 
 
 def proper_subtrees(t):
     out = []
+    if t[0] == "m":
+        return out
     for c in children(t):
         if c[0] not in ("r", "c"):
             out.append(c)
@@ -191,6 +195,38 @@ def build(t):
         return build(t[1]).zeroextend(t[2])
     if k == "g":
         return build(t[1]).signextend(t[2])
+    raise ValueError(t)
+
+
+def build_raw(t):
+    """construct with the node classes directly (no simplification at construction):
+    explores the rewrite paths that start from an unsimplified node"""
+    from amoco.cas import expressions as E
+    k = t[0]
+    if k in ("r", "c"):
+        return build(t)
+    if k == "b":
+        return E.op(t[1], build_raw(t[2]), build_raw(t[3]))
+    if k in ("s", "n"):
+        # operands carry their declared signedness on every node (as in build);
+        # only the signed/unsigned operator node itself is left unsimplified
+        l, r = build_sf(t[2], k == "s"), build_sf(t[3], k == "s")
+        return E.op(t[1], l, r)
+    if k == "u":
+        return E.uop(t[1], build_raw(t[2]))
+    if k == "x":
+        x = build_raw(t[1])
+        if type(x).__name__ in ("cst", "comp", "mem"):
+            return x[t[2]:t[3]]
+        return E.slc(x, t[2], t[3] - t[2])
+    if k == "k":
+        return E.composer([build_raw(p) for p in t[1]])
+    if k == "t":
+        return E.tst(build_raw(t[1]), build_raw(t[2]), build_raw(t[3]))
+    if k == "z":
+        return build_raw(t[1]).zeroextend(t[2])
+    if k == "g":
+        return build_raw(t[1]).signextend(t[2])
     raise ValueError(t)
 
 
